@@ -344,6 +344,14 @@ from . import wiring
 
 from . import mustcall
 
+from . import vocab
+
+
+def _c16_o2(W, ob):
+    from . import c16 as _m
+    return _m.o2(W, ob)
+
+
 OBLIGATIONS = [
     ('C02.O1', 'single constructors', 'SaveGameState / LoadGameState are built only in save_current_state / load_frame '
      'with frame, cell and counter agreeing; load_frame keeps its three assertions.', o1),
@@ -358,8 +366,10 @@ OBLIGATIONS = [
     ('C02.O7', 'frame-0 save', 'In rollback mode the first simulation of frame 0 is preceded by a save of frame 0.', o7),
     ('C02.O8', 'SyncTest and spectator siblings', 'SyncTest saves (check_distance > 0) before fetching and stepping; the '
      'spectator steps only after inputs_at_frame succeeded, fetching frame current+1.', o8),
+    ('C02.O9', 'a failing call drops no half-executed request list (= C16.O2)', 'no error exit of the advance path is reachable after the sync layer was rolled back / saved: the requests that go with those effects would be lost and the game would stay on a discarded timeline; see C16.O2', _c16_o2),
     ('C02.H', 'helpers the rules above rely on', 'the bodies of the helpers named by this property\'s rules compute what the rules assume (get_cell, saved_state_by_frame, cell_accessors); see rules/helpers.py', helpers.bundle('get_cell', 'saved_state_by_frame', 'cell_accessors')),
     ('C02.I', 'initial state', 'every constructor gives the fields this property\'s rules interpret (NULL_FRAME = none / nothing yet, 0 = first frame, latches open, typestate start) the value listed in tables/initial_state.json; every field compared with NULL_FRAME anywhere is listed; see rules/initial.py', initial.rule_for('C02')),
     ('C02.W', 'configuration wiring', 'no crossed wires at call sites, in struct literals and in plain getters (last_saved_frame / last_confirmed_frame / current_frame are three same-typed fields with three getters); see rules/wiring.py', wiring.rule),
     ('C02.M', 'must-call floor', 'the calls listed for this property in tables/must_call.json are made on every path from the entry of their function to a normal return (interprocedural must-call): a new early return, fast path or extra condition in front of one of them is reported; see rules/mustcall.py', mustcall.rule_for('C02')),
+    ('C02.V', 'no unreviewed condition in the pinned helpers', 'for each helper whose body this property\'s rules pin (tables/condition_terms.json), the terms its path conditions are built from (fields, parameters, call results -- no constants, operators or local names) are a subset of the reviewed vocabulary: one more `if` in front of a pinned result (a lock that may time out, "only while an endpoint is running") is reported; see rules/vocab.py', vocab.rule_for('C02')),
 ]
